@@ -130,7 +130,9 @@ func NewEVMInterpreter(evm *EVM, cfg Config) *EVMInterpreter {
 }
 
 func (in *EVMInterpreter) enforceRestrictions(op OpCode, operation operation, stack *Stack) error {
-	if in.evm.chainRules.IsByzantium {
+	// The instruction set is the Constantinople one for every block number (NewEVMInterpreter), so STATICCALL
+	// exists at every height and its write protection must not depend on the chain configuration's fork blocks.
+	{
 		if in.readOnly {
 			// If the interpreter is operating in readonly mode, make sure no
 			// state-modifying operation is performed. The 3rd stack item
